@@ -324,6 +324,8 @@ def features(t) -> List[str]:
                     out.add("in-as-compare-operand")
                 if c[0] == "not":
                     out.add("not-as-compare-operand")
+                    if x[1] in ("lt", "le", "gt", "ge"):
+                        out.add("not-as-ordering-compare-operand")
             if x[3][0] == "call" and x[3][1] in STR_FUNCS_BOOL:
                 out.add("boolfunc-on-right-of-compare")
         elif k == "call":
